@@ -32,20 +32,20 @@ type LoopSpec struct {
 }
 
 type Contract struct {
-	Key      string
-	Src      string
-	Requires []*Clause
-	Ensures  []*Clause
-	Assigns  []*Clause
-	Loops    map[int]*LoopSpec
-	Flags    map[string]string // nowrap, inline, pure, trusted, sweep, noinline, maypanic ...
-	Sweep    []string          // property tags served by the sweep obligations of this function
-	Params   []string          // optional explicit parameter names (stubs)
-	Trusted  bool
-	External bool // from /verif/stubs: assumed contract of code outside the repository
-	GhostParams [][2]string // arbitrary-but-fixed ghost parameters (name, sort): proved for a fresh constant, assumed universally
-	GhostSets   []*Clause   // ghost assignments performed when the function returns: "name = expr"
-	CallSpecs   map[string][]*Clause // function-typed parameter -> clauses (over p0,p1,..) guaranteed at each call of it
+	Key         string
+	Src         string
+	Requires    []*Clause
+	Ensures     []*Clause
+	Assigns     []*Clause
+	Loops       map[int]*LoopSpec
+	Flags       map[string]string // nowrap, inline, pure, trusted, sweep, noinline, maypanic ...
+	Sweep       []string          // property tags served by the sweep obligations of this function
+	Params      []string          // optional explicit parameter names (stubs)
+	Trusted     bool
+	External    bool                       // from /verif/stubs: assumed contract of code outside the repository
+	GhostParams [][2]string                // arbitrary-but-fixed ghost parameters (name, sort): proved for a fresh constant, assumed universally
+	GhostSets   []*Clause                  // ghost assignments performed when the function returns: "name = expr"
+	CallSpecs   map[string][]*Clause       // function-typed parameter -> clauses (over p0,p1,..) guaranteed at each call of it
 	SweepKinds  map[string]map[string]bool // property tag -> sweep obligation kinds it claims (absent: all kinds)
 }
 
@@ -81,17 +81,18 @@ type GhostDef struct {
 }
 
 type Specs struct {
-	Defs      map[string]*GhostDef
-	Contracts map[string]*Contract
-	Ghosts    map[string]*GhostFunc
-	GhostVars map[string]string // name -> sort
-	Axioms    []*Axiom
-	Lemmas    []*Lemma
-	Files     []string
+	Defs       map[string]*GhostDef
+	Contracts  map[string]*Contract
+	Ghosts     map[string]*GhostFunc
+	GhostVars  map[string]string // name -> sort
+	GhostByRef map[string]bool
+	Axioms     []*Axiom
+	Lemmas     []*Lemma
+	Files      []string
 }
 
 func newSpecs() *Specs {
-	return &Specs{Contracts: map[string]*Contract{}, Ghosts: map[string]*GhostFunc{}, GhostVars: map[string]string{}, Defs: map[string]*GhostDef{}}
+	return &Specs{Contracts: map[string]*Contract{}, Ghosts: map[string]*GhostFunc{}, GhostVars: map[string]string{}, GhostByRef: map[string]bool{}, Defs: map[string]*GhostDef{}}
 }
 
 var tagRe = regexp.MustCompile(`^([a-z]+)(\[[A-Za-z0-9_,\-]+\])?$`)
@@ -252,7 +253,13 @@ func (S *Specs) loadFile(path, pkg string, goFile bool) error {
 			// ghost func name(sort, sort) sort   |   ghost var name sort
 			cur, curLemma, last, lastAxiom, lastDef = nil, nil, nil, nil, nil
 			if len(words) >= 3 && words[1] == "var" {
-				S.GhostVars[words[2]] = strings.TrimSpace(strings.Join(words[3:], " "))
+				ws := words[3:]
+				if len(ws) > 0 && ws[len(ws)-1] == "byref" {
+					// indexed by object reference: entries of objects allocated during a call are invisible to its caller
+					S.GhostByRef[words[2]] = true
+					ws = ws[:len(ws)-1]
+				}
+				S.GhostVars[words[2]] = strings.TrimSpace(strings.Join(ws, " "))
 				continue
 			}
 			g, err := parseGhostFunc(strings.TrimSpace(strings.TrimPrefix(rest, "func")))
@@ -412,7 +419,18 @@ func (S *Specs) loadFile(path, pkg string, goFile bool) error {
 
 func parseGhostFunc(s string) (*GhostFunc, error) {
 	i := strings.Index(s, "(")
-	j := strings.LastIndex(s, ")")
+	j := -1
+	for k, d := i, 0; i >= 0 && k < len(s); k++ {
+		if s[k] == '(' {
+			d++
+		} else if s[k] == ')' {
+			d--
+			if d == 0 {
+				j = k
+				break
+			}
+		}
+	}
 	if i < 0 || j < i {
 		return nil, fmt.Errorf("bad ghost func %q", s)
 	}
